@@ -136,3 +136,39 @@ func (g *gen) enumOverride() []Case {
 	}
 	return out
 }
+
+// enumEquivalents: bare names and a few shapes x every template spelling; ==/!= shapes with
+// 1..3 strict operators; chains in call form.
+func (g *gen) enumEquivalents() []Case {
+	var out []Case
+	shapes := []Expr{p("a"), p("s"), p("t"), p("e"), p("z"), p("m.k"), p("m.inner.s"), p("xs[1]"), p("st.Name"), p("us[1].name"),
+		bin("!=", p("a"), p("b")), bin("==", p("s"), ls("abc", "s")), bin("&&", bin("!=", p("a"), li("7")), bin("==", p("m.name"), p("s"))),
+		{K: "tern", A: []Expr{bin("!=", p("m.k"), li("5")), ls("Y", "s"), ls("N", "d")}}, bin("==", bin("!=", p("a"), p("b")), bin("==", p("t"), p("u"))),
+		bin("+", p("m.k"), p("st.Age")), call("upper", p("m.inner.s")), bin("!=", call("len", p("xs")), li("3"))}
+	for env := 0; env < 2; env++ {
+		for _, tv := range tplSpellings {
+			for i, x := range shapes {
+				xc := x
+				c, ok := g.finishExpr(Case{Fam: "expr", Env: env, E: &xc})
+				if !ok {
+					continue
+				}
+				c.Tpl = tv
+				if hasEq(x) {
+					c.Strict = 1 + i%3
+				}
+				out = append(out, c)
+				if tv == "" || tv == "pad-lf" {
+					for _, k := range []string{"s", "d"} {
+						kc := c
+						kc.Keys = k
+						if kc.Text() != c.Text() {
+							out = append(out, kc)
+						}
+					}
+				}
+			}
+		}
+	}
+	return out
+}
